@@ -253,6 +253,11 @@ class Ctx:
                 if b['clause'].startswith('Drift_'):        # model drift is evidence, never a verdict
                     d = self.notes.setdefault('model_drift', {})
                     d[b['clause']] = d.get(b['clause'], 0) + 1
+                    ex_ = self.notes.setdefault('model_drift_examples', [])
+                    if len(ex_) < 8:
+                        sc_ = scenarios[b['sid'] - 1]
+                        ex_.append({'clause': b['clause'], 'scenario': sc_['id'], 'pos': b['pos'], 'tags': sc_.get('tags', {}),
+                                    'family': (sc_.get('recipe') or {}).get('family', '')})
                     continue
                 sc = scenarios[b['sid'] - 1]
                 tags = dict(sc.get('tags', {}))
